@@ -7,6 +7,7 @@ package main
 
 import (
 	"bufio"
+	"os"
 	"fmt"
 	"io"
 	"math/big"
@@ -237,6 +238,9 @@ func (s *Solver) Check(tb *TB, extra []*Term, wantModel []*Term) (Verdict, map[*
 			v = Unknown
 		case strings.Contains(line, "(error"):
 			bad = true
+			if os.Getenv("SYMGO_DEBUG") != "" {
+				fmt.Fprintln(os.Stderr, "SOLVER ERROR:", line)
+			}
 		}
 	}
 	if bad {
